@@ -755,7 +755,7 @@ fn verif_lookup_entries(data: &StreamData, ids: &Vec<StreamId>) -> (r: Vec<Strea
 //@@|     proof { let r0: Result<Vec<StreamEntry>, String> = Ok(pending_entries); assert(range_after_is(es, cur, maxc_of(count, es.len()), r0->Ok_0@, s)); }
 //@@   at "Ok(entries)"
 //@@|     proof { let r0: Result<Vec<StreamEntry>, String> = Ok(entries); assert(range_after_is(es, cur, maxc_of(count, es.len()), r0->Ok_0@, s)); }
-fn read_group(data: &StreamData, group: &mut ConsumerGroup, consumer_name: &str, after_id: StreamId, count: Option<usize>, noack: bool) -> (r: Result<Vec<StreamEntry>, String>)
+fn stream_read_group(data: &StreamData, group: &mut ConsumerGroup, consumer_name: &str, after_id: StreamId, count: Option<usize>, noack: bool) -> (r: Result<Vec<StreamEntry>, String>)
     requires old(group).gwf(), sorted_ids(data.entries@),
         // machine arithmetic: the counters do not wrap
         old(group).consumer_count < usize::MAX, old(group).total_pending + data.entries@.len() <= usize::MAX,
